@@ -12,7 +12,10 @@ U == << El("i1a", "int", 1, "n1", NoKey), El("i1b", "int", 1, "n1", NoKey), El("
         \* a negative integer (the harness stores it as i64, next to 1 stored as u64) and a map keyed by it
         El("in1", "int", -1, "nm1", NoKey), El("mk", "map", 0, "mk", K("int", -1)),
         \* a negative fractional number just below -1 (rank -2): floats and integers are ordered by value
-        El("fm15", "int", -2, "nm1h", NoKey) >>
+        El("fm15", "int", -2, "nm1h", NoKey),
+        \* zero held as an unsigned machine integer (u64 / u128): next to the negative float and the negative integer;
+        \* the two bools: ordered among themselves, never with a number
+        El("z0", "int", 0, "n0", NoKey), El("zU", "int", 0, "n0", NoKey), El("bt", "bool", 1, "bt", NoKey), El("bf", "bool", 0, "bf", NoKey) >>
 GK == << <<"int", 1>>, <<"int", 2>>, <<"str", 1>> >>          \* the group keys that can occur in U
 Obs == IF IOEnv.OBS = "" THEN <<>> ELSE ndJsonDeserialize(IOEnv.OBS)
 VARIABLES mode, xs, o, done
